@@ -15,6 +15,9 @@ pub const MAX_NODES: usize = 40;
 
 /// Input alphabet: 1-, 2-, 3- and 4-byte chars and the newline.
 pub const ALPHA: [char; 9] = ['a', 'B', 'c', 'é', '€', '🎈', '\n', 'Ａ', '\u{feff}'];
+/// ASCII characters that are not letters, in pairs that differ in bit 0x20 only (the bit that ASCII
+/// case folding flips): `match_insensitive` must tell them apart. Used by the longer inputs.
+pub const PUNCT: [char; 12] = ['@', '`', '[', '{', '^', '~', '_', '\u{7f}', '1', '\u{11}', ' ', '\0'];
 /// Literals additionally use the other ASCII case and a non-ASCII upper case (which
 /// `match_insensitive` must NOT fold).
 pub const LIT_ALPHA: [char; 12] = ['a', 'B', 'c', 'é', '€', '🎈', '\n', 'A', 'b', 'C', 'É', 'Ａ'];
@@ -26,6 +29,20 @@ pub fn gen_input(r: &mut Rng) -> String {
         5..=14 => 3 + r.below(8),
         _ => 10 + r.below(7),
     };
+    if r.chance(1, 12) {
+        // a longer, mostly ASCII line with punctuation (keywords and identifiers of 8+ bytes)
+        let n = 12 + r.below(24);
+        let mut s = String::new();
+        for _ in 0..n {
+            s.push(match r.below(10) {
+                0..=4 => (b'a' + r.below(6) as u8) as char,
+                5 => (b'A' + r.below(6) as u8) as char,
+                6..=8 => PUNCT[r.below(PUNCT.len())],
+                _ => ALPHA[r.below(ALPHA.len())],
+            });
+        }
+        return s;
+    }
     if n >= 2 && r.chance(1, 5) {
         // a short block repeated (with an occasional foreign char): pushed spans and literals
         // then match again later in the input, which is what PEEK/POP/PEEK_ALL need to succeed
@@ -48,8 +65,15 @@ pub fn gen_input(r: &mut Rng) -> String {
 }
 
 fn flip_case(s: &str, r: &mut Rng) -> String {
+    // sometimes one non-letter ASCII character gets its 0x20 bit flipped: no longer a match
+    let n_chars = s.chars().count();
+    let flip_at = if n_chars > 0 && r.chance(1, 5) { Some(r.below(n_chars)) } else { None };
     s.chars()
-        .map(|c| {
+        .enumerate()
+        .map(|(i, c)| {
+            if Some(i) == flip_at && c.is_ascii() && !c.is_ascii_alphabetic() {
+                return ((c as u8) ^ 0x20) as char;
+            }
             if c.is_ascii_alphabetic() && r.chance(1, 2) {
                 if c.is_ascii_lowercase() {
                     c.to_ascii_uppercase()
@@ -82,7 +106,7 @@ impl<'a> G<'a> {
         if !self.chars.is_empty() && r.chance(1, 2) {
             // a piece of the input
             let start = if r.chance(1, 3) { 0 } else { r.below(self.chars.len()) };
-            let len = 1 + r.below(3);
+            let len = if r.chance(1, 6) { 8 + r.below(12) } else { 1 + r.below(3) };
             return self.chars[start..(start + len).min(self.chars.len())].iter().collect();
         }
         let len = 1 + r.below(3);
